@@ -110,4 +110,7 @@ def _(c):
               label='rows-volume-time-aligned')
     c.ensures('implies(result.cell_divided_flag == 0, result.simulation_result.shape[0] == len(timepoints))', label='all-rows-unless-divided')
     c.ensures('result.simulation_result.shape[1] == sim.num_species', label='one-column-per-species')
+    c.ensures('arr(sim.initial_state) == old(arr(sim.initial_state))', label='initial-condition-untouched')
+    c.ensures('arr(sim.update_array) == old(arr(sim.update_array)) and arr(sim.delay_update_array) == old(arr(sim.delay_update_array))',
+              label='model-stoichiometry-untouched')
     c.opt(result_class='DelayVolumeSSAResult')
